@@ -335,6 +335,11 @@ def r115(ctx, repo, mp, mc, ml, storable):
                     y, denotes[x]):
                 problems.append(f"the text {x!r} denotes {denotes[x]!r} "
                                 f"but is converted to {y!r}")
+            if isinstance(x, (list, NdArray)) and y is x:
+                problems.append(
+                    "returns its (mutable) argument itself: the stored "
+                    "value aliases the caller's object, a later in-place "
+                    "change of that object changes the metadata")
             if not isinstance(x, str) and not _py_equal(y, x):
                 problems.append(
                     f"changes the value of an input that already has a "
@@ -532,6 +537,51 @@ def sample_for(conv, func_types):
 # ----------------------------------------------------------------------
 # R11.2
 
+#: units of continuous quantities / of discrete (pixel) quantities; [Hz]
+#: is ambiguous in the table (frame rate: float, sample rate: integer)
+UNITS_FLOAT = {"min", "s", "µs", "µm", "nm", "°C", "Pa*s", "µL/s", "V",
+               "%", "1/pix"}
+UNITS_INT = {"px", "pix"}
+
+
+def described_kind(descr):
+    """('float'|'int', why) where the entry's own description is explicit,
+    else None"""
+    import re
+    units = re.findall(r"\[([^\]]+)\]", descr)
+    low = descr.lower()
+    kinds = set()
+    why = []
+    for u in units:
+        if u in UNITS_FLOAT:
+            kinds.add("float")
+            why.append(f"a continuous quantity [{u}]")
+        elif u in UNITS_INT:
+            kinds.add("int")
+            why.append(f"a pixel quantity [{u}]")
+    if re.search(r"\bnumber of\b", low) or re.search(r"\bcount\b", low) \
+            or re.match(r"index of\b", low):
+        kinds.add("int")
+        why.append("a count / an index")
+    if len(kinds) != 1:
+        return None
+    return kinds.pop(), " and ".join(why)
+
+
+def value_kind(conv):
+    """'float' if the converter keeps a fractional part, 'int' if it
+    returns integers, else None (decided on the model)"""
+    for x in (2.5, (2.5, 3.5), [[2.5, 3.5], [1.5, 0.5], [0.5, 1.5]]):
+        st, y = run_conv(conv, x)
+        if st == "ok" and not isinstance(y, str):
+            if _py_equal(y, x):
+                return "float"
+            if isinstance(y, numbers.Integral) and not isinstance(y, bool):
+                return "int"
+            return None
+    return None
+
+
 def table_nodes(repo, name):
     """{(section, key): entry node}, section order"""
     d = repo.module_assign(MC, name)
@@ -570,6 +620,8 @@ def r112(ctx, repo, mp, mc, ml, setitem):
             raise AnalysisError(f"{MC}: derived table {need} vanished")
     storable = []
     n = 0
+    undecided = []
+    n_descr = 0
     for tname, table in tables.items():
         nodes = table_nodes(repo, tname)
         for sec, entries in table.items():
@@ -615,6 +667,22 @@ def r112(ctx, repo, mp, mc, ml, setitem):
                     problems.append("config_descr disagrees with the table")
                 if key not in mc.config_keys.get(sec, []):
                     problems.append("config_keys misses the key")
+                if decl is not None and callable(conv):
+                    exp = described_kind(descr)
+                    if exp is None:
+                        undecided.append(f"[{sec}] {key}")
+                    else:
+                        n_descr += 1
+                        got = value_kind(conv)
+                        if got != exp[0]:
+                            problems.append(
+                                f"the description '{descr}' says "
+                                f"{exp[1]} but the converter "
+                                f"{conv_name(conv)} is "
+                                + {"float": "float-valued",
+                                   "int": "integer-valued (fractions are "
+                                   "truncated)"}.get(got, "neither "
+                                   "integer- nor float-valued"))
                 if not problems:
                     # end to end through the modelled funnel
                     x = sample_for(conv, func_types)
@@ -654,6 +722,9 @@ def r112(ctx, repo, mp, mc, ml, setitem):
                         and conv not in storable:
                     storable.append(conv)
     ctx.stat("R11.2 table entries", n)
+    ctx.stat("R11.2 entries whose description fixes int/float", n_descr)
+    ctx.note("R11.2 description law NOT decided for (no explicit unit / "
+             "count wording): " + ", ".join(undecided))
 
     # resolvers on pattern keys of the online_filter section
     suffixes = set()
@@ -1350,6 +1421,7 @@ def r114(ctx, repo, setitem, mc, ml):
     pc, parse = _reader_model(repo)
     fattrs = {"setup:channel width": 20.0, "setup:medium": b"CellCarrier",
               "experiment:sample": "abc", "user:My Key": 3,
+              "user:note": b"written by other software",
               "online_filter:area_um,deform soft limit": True}
     want = sorted((k.split(":")[0], k.split(":")[1],
                    v.decode() if isinstance(v, bytes) else v)
@@ -2023,4 +2095,54 @@ TWINS = list(TWINS) + [
        "        for key, value in h5attrs.items():\n"
        "            section, pname = key.split(\":\")\n"
        "            config[section][pname] = value\n")]),
+]
+
+# round-2 seeded changes
+MUTANTS = list(MUTANTS) + [
+    ("reader leaves [user] byte strings undecoded", H5,
+     ('            if isinstance(h5attrs[key], bytes):',
+      '            if isinstance(h5attrs[key], bytes) and not '
+      'key.startswith("user:"):'), "R11.4"),
+    ("2d array converter aliases its argument (np.asarray)", MP,
+     ("    return np.array(value, dtype=np.float64)",
+      "    return np.asarray(value, dtype=np.float64)"), "R11.5"),
+    ("2d array converter without copy", MP,
+     ("    return np.array(value, dtype=np.float64)",
+      "    return np.array(value, dtype=np.float64, copy=False)"), "R11.5"),
+    ("int list converter returns lists unchanged", MP,
+     ("    outlist = []\n    if not isinstance(alist, (list, tuple)):",
+      "    outlist = []\n    if isinstance(alist, list) and all(\n"
+      "            isinstance(it, int) for it in alist):\n"
+      "        return alist\n"
+      "    if not isinstance(alist, (list, tuple)):"), "R11.5"),
+    ("duration typed like its integer sibling row", MC,
+     ('["target duration", float, "Target measurement duration [min]"]',
+      '["target duration", fint, "Target measurement duration [min]"]'),
+     "R11.2"),
+    ("pixel coordinate typed as float", MC,
+     ('["roi position x", fint,', '["roi position x", float,'), "R11.2"),
+    ("event count typed as float", MC,
+     ('["event count", fint, "Number of recorded events"]',
+      '["event count", float, "Number of recorded events"]'), "R11.2"),
+]
+TWINS = list(TWINS) + [
+    ("2d array converter with an explicit copy", MP,
+     ("    return np.array(value, dtype=np.float64)",
+      "    return np.array(value, dtype=np.float64, copy=True)")),
+    ("2d array converter: asarray followed by copy()", MP,
+     ("    return np.array(value, dtype=np.float64)",
+      "    return np.asarray(value, dtype=np.float64).copy()")),
+    ("reader decodes inside the filling loop (all sections)", H5,
+     [('        for key in h5attrs:\n'
+       '            if isinstance(h5attrs[key], bytes):\n'
+       '                h5attrs[key] = h5attrs[key].decode("utf-8")\n\n',
+       ''),
+      ('            config[section][pname] = h5attrs[key]',
+       '            value = h5attrs[key]\n'
+       '            if isinstance(value, bytes):\n'
+       '                value = value.decode("utf-8")\n'
+       '            config[section][pname] = value')]),
+    ("description reworded without changing the unit", MC,
+     ('"Target measurement duration [min]"',
+      '"Target duration of the measurement [min]"')),
 ]
